@@ -7,6 +7,12 @@ package saml2
 
 import (
 	"bytes"
+	"crypto/tls"
+	"crypto/x509"
+	"math/big"
+	"strings"
+
+	"github.com/beevik/etree"
 	"regexp"
 	"crypto/aes"
 	"crypto/cipher"
@@ -563,3 +569,172 @@ func vIsUnderscoreUUID(id string) bool {
 	return id == fmt.Sprintf("_%x-%x-%x-%x-%x", u[0:4], u[4:6], u[6:8], u[8:10], u[10:16])
 }
 func vFormatUTC(layout string, ns int64) string { return time.Unix(0, ns).UTC().Format(layout) }
+
+// ---- SSO / logout concretiser (DESIGN A.4): renders the scenario tree as a real, signed, encrypted message ----
+
+type vxKS struct {
+	k *rsa.PrivateKey
+	c []byte
+}
+
+func (p *vxKS) GetKeyPair() (*rsa.PrivateKey, []byte, error) { return p.k, p.c, nil }
+
+var vxKeyStores = map[string]*vxKS{}
+
+// vxKeyStore: RSA key + self-signed certificate valid 2000..2100, cached per name for the process.
+func vxKeyStore(name string) *vxKS {
+	if ks, ok := vxKeyStores[name]; ok {
+		return ks
+	}
+	k := vRSAKey(name)
+	tpl := &x509.Certificate{SerialNumber: big.NewInt(int64(len(vxKeyStores) + 1)),
+		NotBefore: time.Date(2000, 1, 1, 0, 0, 0, 0, time.UTC), NotAfter: time.Date(2100, 1, 1, 0, 0, 0, 0, time.UTC)}
+	der, err := x509.CreateCertificate(vxOrigRandReader, tpl, tpl, &k.PublicKey, k)
+	if err != nil {
+		panic(err)
+	}
+	ks := &vxKS{k: k, c: der}
+	vxKeyStores[name] = ks
+	return ks
+}
+
+func vIDPStore() dsig.X509CertificateStore {
+	c, err := x509.ParseCertificate(vxKeyStore("idp").c)
+	if err != nil {
+		panic(err)
+	}
+	return &dsig.MemoryX509CertificateStore{Roots: []*x509.Certificate{c}}
+}
+
+func vhTLSCert() tls.Certificate {
+	ks := vxKeyStore("sp")
+	return tls.Certificate{Certificate: [][]byte{ks.c}, PrivateKey: ks.k}
+}
+
+func vClockBetween(name string, lo, hi int64) {}
+
+func vxSign(el *etree.Element, ks *vxKS) *etree.Element {
+	ctx := dsig.NewDefaultSigningContext(ks)
+	ctx.Canonicalizer = dsig.MakeC14N10ExclusiveCanonicalizerWithPrefixList("")
+	out, err := ctx.SignEnveloped(el)
+	if err != nil {
+		panic("vx: signing failed: " + err.Error())
+	}
+	return out
+}
+
+// vxProcess strips the reserved attributes and placeholder Signature children and applies real signatures:
+// vx-sig=valid -> IdP key (a foreign key when the model chose "certificate rejected" for that element),
+// vx-sig=invalid -> foreign key. Children first, so an outer signature covers the inner ones.
+func vxProcess(e *etree.Element) *etree.Element {
+	for i := 0; i < len(e.Child); i++ {
+		if ce, ok := e.Child[i].(*etree.Element); ok {
+			ne := vxProcess(ce)
+			if ne != ce {
+				e.RemoveChildAt(i)
+				e.InsertChildAt(i, ne)
+			}
+		}
+	}
+	sig, name := "", ""
+	var keep []etree.Attr
+	for _, a := range e.Attr {
+		if a.Space == "" && strings.HasPrefix(a.Key, "vx-") {
+			switch a.Key {
+			case "vx-sig":
+				sig = a.Value
+			case "vx-name":
+				name = a.Value
+			}
+			continue
+		}
+		keep = append(keep, a)
+	}
+	e.Attr = keep
+	if sig != "" && sig != "none" {
+		for i := 0; i < len(e.Child); i++ {
+			if ce, ok := e.Child[i].(*etree.Element); ok && ce.Tag == "Signature" && len(ce.Child) == 0 {
+				e.RemoveChildAt(i)
+				break
+			}
+		}
+	}
+	switch sig {
+	case "valid":
+		ks := vxKeyStore("idp")
+		if vxI64("dsig.cert-rejected."+name) == 1 {
+			ks = vxKeyStore("untrusted")
+		}
+		return vxSign(e, ks)
+	case "invalid":
+		return vxSign(e, vxKeyStore("untrusted"))
+	}
+	return e
+}
+
+func vxRenderBytes(root *etree.Element) []byte {
+	if root == nil {
+		return []byte("")
+	}
+	out := vxProcess(root.Copy())
+	d := etree.NewDocument()
+	d.SetRoot(out)
+	b, err := d.WriteToBytes()
+	if err != nil {
+		panic(err)
+	}
+	return b
+}
+
+func vEncodeDoc(name string, root *etree.Element, mode int) string {
+	vxFresh(name)
+	raw := vxRenderBytes(root)
+	switch mode {
+	case 1:
+		var b bytes.Buffer
+		w, _ := flate.NewWriter(&b, flate.BestCompression)
+		w.Write(raw)
+		w.Close()
+		raw = b.Bytes()
+	case 2:
+		raw = append([]byte(`<?xml version="1.0" encoding="ISO-8859-1"?>`), raw...)
+	}
+	return base64.StdEncoding.EncodeToString(raw)
+}
+
+func vEncryptTree(name string, inner *etree.Element, key []byte) string {
+	vxFresh(name)
+	plain := []byte("<<< this plaintext is not XML")
+	if inner != nil {
+		plain = vxRenderBytes(inner)
+	}
+	blk, err := aes.NewCipher(key)
+	if err != nil {
+		return base64.StdEncoding.EncodeToString(bytes.Repeat([]byte{0}, 64))
+	}
+	g, _ := cipher.NewGCM(blk)
+	nonce := make([]byte, 12)
+	vxOrigRandReader.Read(nonce)
+	return base64.StdEncoding.EncodeToString(append(nonce, g.Seal(nil, nonce, plain, nil)...))
+}
+
+func vValidateCtxOK(sp *SAMLServiceProvider) bool { return true }
+func vValidateCalls() int                          { return 0 }
+func vCertRejections() int {
+	n := 0
+	for k, v := range vx.inputs {
+		if strings.HasPrefix(k, "dsig.cert-rejected.") {
+			if f, ok := v.(float64); ok && f == 1 {
+				n++
+			}
+		}
+	}
+	return n
+}
+func vScreenedEqualsParsed() bool              { return true }
+func vScreenCalls() int                        { return 1 }
+func vWireInflatedLen(name string) int64       { return 0 }
+func vSerialised(doc *etree.Document) string {
+	s, _ := doc.WriteToString()
+	return s
+}
